@@ -192,6 +192,11 @@ Theorem C19_render_line : forall (sp : str) (t : tree N),
   forallb is_blankc sp = true -> line_tree (text sp t) = Some (dtree t).
 Proof. exact line_tree_text. Qed.
 
+(** ... and integer mode evaluates that text to the reference value of the tree (the text has no dot) *)
+Theorem C19_render_value : forall (sp : str) (t : tree N),
+  forallb is_blankc sp = true -> run_calculator (text sp t) = RInt (Ok (ref_eval (dtree t))).
+Proof. exact run_calculator_text. Qed.
+
 Theorem C19_dec_literal : forall n : N,
   dec n <> [] /\ forallb is_digit (dec n) = true /\ digits_val 0 (dec n) = Some (Z.of_N n) /\
   (Z.of_N n <= i64_max -> parse_i64 (dec n) = Some (Z.of_N n)).
@@ -323,3 +328,4 @@ Print Assumptions C19_render_parse.
 Print Assumptions C19_render_parse_fuel.
 Print Assumptions C19_render_line.
 Print Assumptions C19_dec_literal.
+Print Assumptions C19_render_value.
